@@ -76,7 +76,7 @@ class CountingPlayServer(c11.PlayServer):
 
 
 def truncated(ctx, conversation, pv=757, n_max=None, sentinel=False,
-              initial=None):
+              initial=None, write_faults=0):
     import minecraft
     from minecraft.networking.connection import Connection, ConnectionContext
     from minecraft.networking.packets import clientbound, Packet
@@ -154,7 +154,8 @@ def truncated(ctx, conversation, pv=757, n_max=None, sentinel=False,
     import minecraft.networking.connection as cn_
     import minecraft.networking.packets.packet as pk_
     with netenv.patched(pk_, compress=zl.compress), \
-            netenv.patched(cn_, zlib=zl), World(ctx, factory) as wld:
+            netenv.patched(cn_, zlib=zl), \
+            World(ctx, factory, write_faults=write_faults) as wld:
         kw = dict(handle_exit=lambda: exits.append(1),
                   handle_exception=lambda e, i: excs.append(e))
         if conversation == 'connect_status':
@@ -237,7 +238,8 @@ def truncated(ctx, conversation, pv=757, n_max=None, sentinel=False,
     if conversation == 'status':
         conds.append(z3.BoolVal(len(statuses) <= (1 if n_complete >= 1
                                                   else 0)))
-    note_key(ctx, 'C15:%s:%d' % (conversation, pv))
+    note_key(ctx, 'C15:%s:%d%s' % (conversation, pv,
+                                   ':epipe' if write_faults else ''))
     return z3.And(*conds)
 
 
@@ -251,6 +253,14 @@ def instances(tier, seed):
     for conv, pv in convs:
         out.append(Instance('truncated:%s:%d' % (conv, pv), 'truncated',
                             {'conversation': conv, 'pv': pv},
+                            W=192 if conv == 'enc' else 96,
+                            budget_s=1800, max_decisions=100000,
+                            conc_timeout_s=6))
+    # ... and the client's own writes may fail once the server has closed
+    for conv, pv in (('play', 757), ('play_z', 47), ('enc', 757)):
+        out.append(Instance('truncated:%s:%d:epipe' % (conv, pv),
+                            'truncated', {'conversation': conv, 'pv': pv,
+                                          'write_faults': 1},
                             W=192 if conv == 'enc' else 96,
                             budget_s=1800, max_decisions=100000,
                             conc_timeout_s=6))
